@@ -78,7 +78,7 @@ export const commanderExec = () => {
   const projectJson = readProjectJson(projectPath);
   logTiming(verbose, "project/config read", configStart);
   const bundlerStart = Date.now();
-  const bundler = new Bundler(verbose);
+  const bundler = new Bundler(verbose, path.dirname(projectPath));
   logTiming(verbose, "bundler init", bundlerStart);
 
   const exec = () => execProject(bundler, projectPath, projectJson, verbose);
